@@ -156,3 +156,22 @@ where
         r
     }
 }
+
+#[cfg(feature = "verif_hooks")]
+impl<K, V> Lru<K, V>
+where
+    K: Hash + Clone + Eq + PartialEq + Debug,
+    V: Eq + PartialEq + Clone,
+{
+    /// read-only copy of the hidden state: `(capacity exponent, fill counter, slots)`
+    pub fn verif_dump(&self) -> (usize, usize, Vec<Option<(K, V, u64)>>) {
+        (
+            self.cap,
+            self.num_filled,
+            self.tbl
+                .iter()
+                .map(|e| e.as_ref().map(|e| (e.key.clone(), e.val.clone(), e.hash)))
+                .collect(),
+        )
+    }
+}
